@@ -9,7 +9,6 @@ Every theorem is of the form "for every input, the model's fuel-driven run retur
 `trapped evs = false`".  The correspondence harness compares `evs` (items and trip counts) with the
 real iterators.
 
-NOT proved here (correspondence only): termination of `TupleDeltaIter` (`tdTrace`).
 -/
 import FontVerif.Lemmas.ReadIterBounds
 set_option linter.unusedVariables false
@@ -205,6 +204,39 @@ strictly larger cursor position, so `len + 2` trips always suffice. -/
 theorem skipFast_total (d : List Nat) (n : Nat) (s : DlSt) : ∃ r, skipFast d n s = some r :=
   skipFastLoop_some d n _ _ s (by omega)
 
+/-! ## tuple variation deltas -/
+
+/-- **`TupleVariation::deltas()` (`TupleDeltaIter`, gvar and cvar) terminates without trapping** on
+every serialized tuple (private packed points followed by packed deltas, arbitrary bytes): the
+set-up (`total_len`, `count_all_deltas`, `skip_fast`) completes, and the `loop` of `next` makes at
+most `128·len + 131204` trips — every trip either consumes a point number (≤ 65535 of them), or
+advances `cur` towards the next point (`≤ u16::MAX`), or consumes a delta (≤ 64 per byte). -/
+theorem tupleDeltas_iter_bounded (ser : List Nat) (isPoint : Bool) :
+    ∃ evs, tdTrace ser isPoint = some evs ∧ evs.length ≤ 128 * ser.length + 131204 ∧ trapped evs = false := by
+  obtain ⟨dd, s0, hinit, hinv, hmu⟩ := tdInit_some ser isPoint
+  have hdd : dd.length ≤ ser.length := by
+    unfold tdInit at hinit
+    split at hinit
+    · cases hinit
+    · rename_i tl _
+      simp only [] at hinit
+      split at hinit
+      · cases hinit
+      · split at hinit
+        · split at hinit
+          · cases hinit
+          · simp at hinit; rw [← hinit.1]; simp
+        · simp at hinit; rw [← hinit.1]; simp
+  unfold tdTrace
+  rw [hinit]
+  simp only []
+  obtain ⟨evs, he, hl⟩ := run_complete (tdStep ser dd) muTd TdInv
+    (fun s hi => (tdStep_facts ser dd s hi).1) (fun s hi => (tdStep_facts ser dd s hi).2.2) (tdFuel dd) s0 hinv hmu
+  refine ⟨evs, he, ?_, not_trapped (tdStep ser dd) TdInv (fun s hi => (tdStep_facts ser dd s hi).1)
+    (fun s hi => (tdStep_facts ser dd s hi).2.1) _ _ _ hinv he⟩
+  unfold tdFuel at hmu
+  omega
+
 /-! ## non-vacuity -/
 
 /-- two overlapping segments `[10,20]`, `[15,30]` (delta 1): the clamp makes the iterator yield each
@@ -231,5 +263,8 @@ example : (varIterTrace (.plain 1) [2, 65, 66, 0, 1, 67]).map (·.length) = some
 example : (ptTrace [3, 2, 1, 2, 3]).map items = some [1, 3, 6] := by decide +kernel
 
 example : countAllDeltas [0x03, 1, 2, 3, 4, 0x81] = some 6 := by decide +kernel
+/-- two private points (1, 3) with x/y deltas: the gvar iterator yields both -/
+example : (tdTrace [2, 1, 1, 2, 0x03, 10, 20, 30, 40] true).map items = some [(1, 10, 30), (3, 20, 40)] := by
+  decide +kernel
 
 end FontVerif.C01Iter
